@@ -34,7 +34,7 @@ def configs(ctx):
     add('1d-p2-n4-d1', N1=4, Disp=1, MarkCap=2)
     add('1d-p1-n2-L4-d1', P1=1, N1=2, MaxLev=4, Disp=1, MaxCalls=3, MarkCap=1)
     add('1d-p1-n5-inf', P1=1, N1=5, MarkCap=1)     # interior single cells: refinements that only ACTIVATE functions
-    add('2d-p12-2x2-inf', D=2, P1=1, P2=2, N1=2, N2=2, MarkCap=1, workers=4)
+    add('2d-p12-2x2-inf', D=2, P1=1, P2=2, N1=2, N2=2, MarkCap=1, workers=10)
     if ctx.thorough:
         add('1d-p3-n3-inf-c3', P1=3, MaxCalls=3, MarkCap=2, workers=4)
         add('1d-p2-n3-d2-L4', MaxLev=4, Disp=2, MaxCalls=3, MarkCap=2, workers=4)
